@@ -1,9 +1,19 @@
 (* C20 - Genesis export and re-import preserves every live position and counter.
    Property theorems only.  [the_table] is REGENERATED from the Go source on every check
    (Gen/GenesisTable.v); the finite theorems are by computation over it, the lifting lemmas are
-   generic (Proofs/GenesisProofs.v).  On the unchanged tree the property is false for the
-   (module, prefix) pairs listed in [known_holes] (12 classes kf_C20 1..12); each class has a
-   [_refuted] statement, and the positive theorems are stated on the complement. *)
+   generic (Proofs/GenesisProofs.v).  The property is false for the (module, prefix) pairs listed in
+   [known_holes] (classes kf_C20 3..6, 8..11, 14..16); each class has a [_refuted] statement, and
+   the positive theorems are stated on the complement.
+   fixed: property=C20 PENDING collector ExportGenesis emitted zero-valued net-fee records (class 1)
+   fixed: property=C20 PENDING auctionsV2 InitGenesis reset the exported auction id and user bid id
+          counters to 0 (class 2)
+   fixed: property=C20 PENDING auction V1 InitGenesis filled the lend dutch auctions (and their id
+          counter) from the DutchAuction field instead of DutchLendAuction (class 7)
+   fixed: property=C20 PENDING collector InitGenesis dropped the lookup table, the auction mapping and
+          the denoms mapping when the validating lookup setter failed (class 12)
+   These classes and their [_refuted] theorems are deleted; their witnesses are the regression
+   examples [c20_*_regression] below and forced cases of the behavioural runs (TestC20 cases 0, 1;
+   TestC20Liq cases 0-3). *)
 From Coq Require Import String.
 From Comdex Require Import Lib.Base Lib.GenesisTypes Gen.GenesisTable Model.Genesis Proofs.GenesisProofs.
 Open Scope Z_scope.
@@ -27,8 +37,9 @@ Print Assumptions c20_roundtrip_table_partial.
 (* lifted: for every module state s (any content, hence every reachable one) whose derived indexes
    are consistent with their records, InitGenesis (ExportGenesis s) has exactly the entries of s
    under every live non-counter prefix outside the known-finding classes.  [roundtrip] is the
-   success path of InitGenesis; prefixes whose import can be cut short by a failing validating
-   setter are excluded by [survives] (class 12). *)
+   success path of InitGenesis; prefixes whose import can be cut short by a setter that validates
+   against other state are excluded by [survives] unless that validation is harmless
+   ([guard_harmless], see c20_esm_guard_harmless); no module has such a prefix today. *)
 Theorem c20_roundtrip_partial : forall p dv s,
   In p prefixes -> live p = true -> p_counter p = false ->
   kf_C20_any (p_mod p) (p_byte p) = false ->
@@ -72,52 +83,31 @@ Print Assumptions c20_fresh_ids.
 
 (* ---------------- the known-finding classes: refutations on the unchanged tree ---------------- *)
 
-(* every listed hole is a live prefix of the regenerated table that does NOT survive *)
+(* every listed hole is a live prefix of the regenerated table that does NOT survive, and every
+   listed id counter is restored in the shape in which the hole was found (maximum / last / count /
+   absent: [known_counter_shapes]) - a counter restored as a count where a maximum is listed is in
+   no class *)
 Theorem c20_known_holes_refuted : forallb hole_is_hole known_holes = true.
 Proof. exact holes_are_holes. Qed.
 Print Assumptions c20_known_holes_refuted.
 
-(* class 1: the collector's bulk reader iterates the net-fee prefix without ever reading the
-   value: the export holds one zero record per entry, and a state with a net fee does not survive *)
-Theorem c20_netfee_refuted : forall dv,
-  classify the_table "collector" 8 = CovKeysOnly /\
-  exists s, get (roundtrip dv the_table "collector" s) 8 <> get s 8.
-Proof.
-  intros dv. split; [vm_compute; reflexivity|].
-  apply keysonly_refuted; vm_compute; tauto.
-Qed.
-Print Assumptions c20_netfee_refuted.
-
-(* classes 3, 6, 8, 11 (and the non-counter prefixes of 7): a live prefix that no genesis field
-   carries comes back empty *)
+(* classes 3, 6, 8, 11, 15, 16 (and the non-counter prefixes of 14): a live prefix that no genesis
+   field carries comes back empty *)
 Theorem c20_lost_refuted : forall p dv,
   In p prefixes -> classify the_table (p_mod p) (p_byte p) = CovLost ->
   exists s, get (roundtrip dv the_table (p_mod p) s) (p_byte p) <> get s (p_byte p).
 Proof. intros p dv Hin Hl. apply lost_refuted; [exact (in_pref_rows the_table p Hin)|exact Hl]. Qed.
 Print Assumptions c20_lost_refuted.
 
-(* class 7: the lend dutch auctions are exported (field DutchLendAuction) but InitGenesis fills
-   their prefix from the DutchAuction field, and both auction-id counters are the id of the last
-   dutch auction *)
+(* class 14: auction V1: both auction-id counters are the id of the LAST exported dutch / lend dutch
+   auction: after the newest auction was closed the counter goes back *)
 Theorem c20_auction_v1_refuted :
-  classify the_table "auction" 32 = CovMismatch 17 /\
   counter_restore the_table "auction" 19 = RLast [17] /\
-  counter_restore the_table "auction" 25 = RLast [17] /\
+  counter_restore the_table "auction" 25 = RLast [32] /\
   exists orig items, (forall i, In i (ids items) -> i <= orig) /\
                      restored_value (RLast [17]) orig items <> Some orig.
 Proof. repeat split; try (vm_compute; reflexivity). apply last_restore_reissues. Qed.
 Print Assumptions c20_auction_v1_refuted.
-
-(* class 2: auctionsV2 sets both exported counters to the constant 0 and never sets the limit-bid
-   id; the next auction id then collides with a live auction *)
-Theorem c20_auctionsV2_counters_refuted :
-  counter_restore the_table "auctionsV2" 1 = RZero /\
-  counter_restore the_table "auctionsV2" 5 = RZero /\
-  counter_restore the_table "auctionsV2" 3 = RAbsent /\
-  exists items, match restored_value RZero 1 items with
-                | Some v => In (next_id v) (ids items) | None => False end.
-Proof. repeat split; try (vm_compute; reflexivity). apply zero_restore_collides. Qed.
-Print Assumptions c20_auctionsV2_counters_refuted.
 
 (* class 4: liquidation V1 restores LockedVaultID as the number of locked vaults: with live ids
    {2,3} the next id is 3 *)
@@ -128,11 +118,13 @@ Theorem c20_liquidation_count_refuted :
 Proof. split; [vm_compute; reflexivity|apply count_restore_collides]. Qed.
 Print Assumptions c20_liquidation_count_refuted.
 
-(* classes 5 and 9: liquidationsV2.LockedVaultID and the locker id counter are never written by
-   InitGenesis: they read 0 and the next id (1) collides with a live record *)
+(* classes 5, 9 (and the limit-bid id of class 3): liquidationsV2.LockedVaultID, the locker id
+   counter and auctionsV2.LimitAuctionBidID are never written by InitGenesis: they read 0 and the
+   next id (1) collides with a live record *)
 Theorem c20_absent_counters_refuted :
   counter_restore the_table "liquidationsV2" 3 = RAbsent /\
   counter_restore the_table "locker" 23 = RAbsent /\
+  counter_restore the_table "auctionsV2" 3 = RAbsent /\
   exists items, restored_value RAbsent 1 items = None /\ In (next_id 0) (ids items).
 Proof. repeat split; try (vm_compute; reflexivity). apply absent_restore_collides. Qed.
 Print Assumptions c20_absent_counters_refuted.
@@ -147,14 +139,77 @@ Theorem c20_maxid_refuted :
 Proof. repeat split; try (vm_compute; reflexivity). apply max_restore_reissues. Qed.
 Print Assumptions c20_maxid_refuted.
 
-(* class 12: the collector lookup table is imported through a setter that can return an error, on
-   which InitGenesis returns; the auction mapping and the denoms mapping come after it *)
-Theorem c20_guarded_import_refuted :
-  at_risk the_table "collector" 1 = true /\ at_risk the_table "collector" 5 = true /\
-  at_risk the_table "collector" 7 = true /\ at_risk the_table "esm" 4 = true /\
-  at_risk the_table "locker" 21 = false /\ at_risk the_table "vault" 16 = false.
+(* the shape of a counter hole matters: lend InitGenesis takes the lend id from the LAST imported
+   lend (ascending ids: the maximum); were it to COUNT the imported lends instead, with lends {2, 3}
+   alive the next lend would get id 3 again - and (lend, 22) would no longer be in any class *)
+Example c20_counter_shape_sensitive :
+  shape_code (counter_restore the_table "lend" 22) = 2 /\ kf_C20_any "lend" 22 = true /\
+  shape_code (counter_restore the_table "liquidation" 1) = 3 /\ kf_C20_class "liquidation" 1 = 4 /\
+  (exists items, match restored_value (RCount [21]) 3 items with
+                 | Some v => In (next_id v) (ids items) | None => False end) /\
+  (forall items : entries, ~ In (next_id (zmax_list (ids items))) (ids items)).
+Proof.
+  repeat split; try (vm_compute; reflexivity).
+  - apply count_restore_collides.
+  - apply max_restore_fresh.
+Qed.
+
+(* ---------------- decided: not a defect ---------------- *)
+(* former class 13: esm InitGenesis imports the kill switches through SetKillSwitchData, which
+   returns an error when the app is not registered in the asset module, and returns on it (the user
+   deposits and the cool-off data come after it).  The regenerated table says: that setter is the
+   only writer of the kill-switch prefix, reads nothing of the esm store, and asks the asset module
+   for the app only (asset prefix 21: never deleted, comes back from the round trip through setters
+   that cannot fail, and asset is initialised before esm).  So every exported kill switch is accepted
+   again: nothing of esm is at risk.  A second writer of the prefix or esm initialised before asset
+   would put it at risk again (last two conjuncts: the decision is sensitive to both). *)
+Example c20_esm_guard_harmless :
+  existsb (fun r => String.eqb (i_mod r) "esm" && (i_guard r =? 1)) imports = true /\
+  forallb (guard_harmless the_table) (filter (fun r => (i_guard r =? 1) || (i_guard r =? 2)) imports) = true /\
+  at_risk the_table "esm" 4 = false /\ at_risk the_table "esm" 5 = false /\ at_risk the_table "esm" 7 = false /\
+  kf_C20_any "esm" 4 = false /\
+  at_risk (mkT prefixes exports imports unrecognised
+               [mkGD "esm" "SetKillSwitchData" false true [("asset", "GetApp", [21])]] init_order) "esm" 5 = true /\
+  at_risk (mkT prefixes exports imports unrecognised guard_deps ["esm"; "asset"]) "esm" 5 = true.
 Proof. vm_compute. repeat split. Qed.
-Print Assumptions c20_guarded_import_refuted.
+
+(* ---------------- regressions of the repaired findings ---------------- *)
+(* C20-F1 (fixed): the net-fee prefix is exported WITH its values and imported from the same field;
+   the setter that imports it rejects on a condition over the item alone, so nothing is at risk;
+   the witness state of the former c20_netfee_refuted (one net fee) now survives *)
+Example c20_netfee_regression :
+  classify the_table "collector" 8 = CovDirect /\ at_risk the_table "collector" 8 = false /\
+  kf_C20_any "collector" 8 = false /\
+  forall dv, get (roundtrip dv the_table "collector" [(8, [(1, 1)])]) 8 = [(1, 1)].
+Proof. repeat split; vm_compute; reflexivity. Qed.
+
+(* C20-F2 (fixed): both exported auctionsV2 counters are fed back from their own fields: they come
+   back with their value, so the next auction / bid id is the one the original chain assigns *)
+Example c20_auctionsV2_counters_regression :
+  counter_restore the_table "auctionsV2" 1 = RExact /\ counter_restore the_table "auctionsV2" 5 = RExact /\
+  counter_ok the_table "auctionsV2" 1 = true /\ counter_ok the_table "auctionsV2" 5 = true /\
+  kf_C20_any "auctionsV2" 1 = false /\ kf_C20_any "auctionsV2" 5 = false /\
+  restored_value (counter_restore the_table "auctionsV2" 1) 5 [(1, 0); (2, 0); (5, 0)] = Some 5.
+Proof. vm_compute. repeat split. Qed.
+
+(* C20-F7 (fixed): the lend dutch auctions are filled from the field that exports them; a running
+   vault dutch auction (prefix 17) no longer shows up under the lend prefix 32 *)
+Example c20_lend_auctions_regression :
+  classify the_table "auction" 32 = CovDirect /\ kf_C20_any "auction" 32 = false /\
+  forall dv, let s := [(17, [(1, 7); (2, 8)]); (32, [])] in
+    get (roundtrip dv the_table "auction" s) 32 = [] /\ get (roundtrip dv the_table "auction" s) 17 = [(1, 7); (2, 8)].
+Proof. repeat split; vm_compute; reflexivity. Qed.
+
+(* C20-F12 (fixed): no prefix of the collector is at risk any more; lookup table (1), asset
+   collector mapping (3), auction mapping (5) and denoms mapping (7) survive, each from its own field *)
+Example c20_collector_import_regression :
+  forallb (fun b => negb (at_risk the_table "collector" b) && negb (kf_C20_any "collector" b) &&
+                    match classify the_table "collector" b with CovDirect => true | _ => false end)
+          [1; 3; 5; 7; 8] = true /\
+  forall dv,
+    let s := [(1, [(11, 5)]); (3, [(12, 6)]); (5, [(13, 7)]); (7, [(14, 8)]); (8, [(15, 404000)])] in
+    forallb (fun b => entries_eqb (get (roundtrip dv the_table "collector" s) b) (get s b)) [1; 3; 5; 7; 8] = true.
+Proof. split; [vm_compute; reflexivity|intros dv; vm_compute; reflexivity]. Qed.
 
 (* ---------------- non-vacuity ---------------- *)
 (* a locker store with two lockers, a lookup table and a user mapping round-trips on every covered
